@@ -139,6 +139,9 @@ def other_entry_cases():
             out.append({'op': 'ffi_validate', 'static': st, 'templates': {}, 'links': [], 'schema': sch})
     out.append({'op': 'ffi_validate', 'static': {'kind': 'set', 'items': []}, 'templates': {'t0': {'cedar': 'permit(principal == ?principal, action, resource) when { principal.nope };'}},
                 'links': [{'templateId': 't0', 'newId': 'l0', 'values': {'?principal': uidj('User', 'bob')}}, {'templateId': 't0', 'newId': 'l1', 'values': {'?principal': uidj('User', 'alice')}}], 'schema': {'cedar': SCHEMA_CEDAR}})
+    for tm in ({'t0': {'cedar': 'permit(principal == ?principal, action, resource) when { principal.nope };'}}, {'t0': {'cedar': 'permit(principal == ?principal, action == Action::"view", resource) when { context.n == "one" };'}, 't1': TEMPLATES['t1']},
+               {'t0': TEMPLATES['t0']}):
+        out.append({'op': 'ffi_validate', 'static': {'kind': 'set', 'items': []}, 'templates': tm, 'links': [], 'schema': {'cedar': SCHEMA_CEDAR}})       # templates only: they are validated too
     pol_docs = [{'cedar': POLICIES['p0']}, {'cedar': POLICIES['p2']}, {'json': EST_P0}, {'cedar': 'permit(principal, action);'}, {'cedar': TEMPLATES['t0']['cedar']}, {'json': {'effect': 'permit'}},
                 {'cedar': '@id("x") permit(principal, action, resource) when { [1, 2].contains(1) && "a" like "a*" };'}, {'cedar': 'permit(principal, action, resource) when { true };'},
                 {'cedar': 'forbid(principal, action, resource) when { true } unless { false };'}]
